@@ -11,12 +11,13 @@ from cirbo.minimization.simplification import (  # noqa: F401
 
 NS = dict(
     iter=iter,
+    TC=__import__("cirbo.core.circuit.transformer", fromlist=["TransformerComposition"]).TransformerComposition,
     RRG=RemoveRedundantGates, MU=MergeUnaryOperators, MD=MergeDuplicateGates, ME=MergeEquivalentGates,
     Transformer=Transformer, cleanup=cleanup,
 )
 
 IMPORTS = (
-    "from cirbo.core.circuit.transformer import Transformer\n"
+    "from cirbo.core.circuit.transformer import Transformer, TransformerComposition as TC\n"
     "from cirbo.minimization.simplification import cleanup, MergeDuplicateGates as MD, MergeEquivalentGates as ME, "
     "MergeUnaryOperators as MU, RemoveRedundantGates as RRG\n"
 )
@@ -24,6 +25,10 @@ IMPORTS = (
 BASIC = ["RRG()", "RRG(allow_inputs_removal=True)", "MU()", "MD()", "ME()"]
 # apply_transformers documents an Iterable of passes: the same lists handed over as one-shot iterators
 ONE_SHOT = ["iter([MU(), MD()])", "iter([RRG(), RRG(allow_inputs_removal=True)])", "iter([MD(), MU(), RRG()])", "iter([ME()])"]
+
+
+# compositions built through the public constructor (a pass may stand twice in a row: not every pass is idempotent)
+CONSTRUCTED = ["TC([MU(), MU()])", "TC([MU(), MU(), MD()])", "TC([MD(), MD(), MU(), MU()])", "TC([TC([MU()]), MU()])", "(TC([MU(), MU()]) | RRG())"]
 
 
 def is_pipeline_object(obj):
@@ -37,7 +42,7 @@ def pass_specs(thorough, rnd):
     lists = [f"[{a}, {b}]" for a in BASIC for b in BASIC] + [f"[{a} | {b}, {c}]" for a in BASIC[2:] for b in BASIC[:3] for c in BASIC[2:]]
     nested = ["((MU() | MD()) | (RRG() | ME()))", "(RRG() | (RRG() | RRG()))", "[RRG(), RRG(), MU(), MU()]",
               "(MD() | (MU() | RRG(allow_inputs_removal=True)))"]
-    specs += ["cleanup(False)", "cleanup(True)"] + nested + ONE_SHOT
+    specs += ["cleanup(False)", "cleanup(True)"] + nested + ONE_SHOT + CONSTRUCTED
     if thorough:
         specs += two + rnd.sample(three, 40) + lists
     else:
